@@ -349,14 +349,14 @@ def oracle(case, obj, before, old, new, outcome, rep, pandas_mixin=False):
     kw = case_kwargs(case)
     pre = 'pandas-mixin-' if pandas_mixin else ''
     if bc.snapshot(obj) != before:
-        rep.violate(pre + 'reindex-mutates-original', 'the original object changed during reindex()', case)
+        bc.violate(rep, pre + 'reindex-mutates-original', 'the original object changed during reindex()', case)
     names = list(obj.__dict__['index'])
     fills = [k for k in kw if k not in ('fill_value', 'strict')]
     unknown = [k for k in fills if k not in names]
     eff_strict = case['strict'] if case['strict_arg'] is None else case['strict_arg']
     if unknown and eff_strict:
         if not (tag == 'exc' and isinstance(r, KeyError)):
-            rep.violate(pre + 'reindex-strict-not-rejected', f'unknown fill keywords {unknown} under strict: expected KeyError, got {tag} {r!r}'[:300], case)
+            bc.violate(rep, pre + 'reindex-strict-not-rejected', f'unknown fill keywords {unknown} under strict: expected KeyError, got {tag} {r!r}'[:300], case)
         return 'rejected'
     if tag == 'exc' and bc.span_family(case['span_kind']) == 'numpy' and len(set(case['old'])) < len(case['old']):
         return 'outside-regime'   # duplicate labels in a NumPy old span: the locator refuses (see ASSUMPTIONS)
@@ -367,63 +367,63 @@ def oracle(case, obj, before, old, new, outcome, rep, pandas_mixin=False):
                   (nm in kw and kw[nm] is None) or (case['is_model'] and nm in ('status', 'iterations'))
                   for nm in names]
         if all(judged):
-            rep.violate(pre + 'reindex-raises', f'reindex raised {type(r).__name__}: {r}'[:300], case)
+            bc.violate(rep, pre + 'reindex-raises', f'reindex raised {type(r).__name__}: {r}'[:300], case)
             return 'raised'
         return 'unrepresentable-fill'
     if r is obj:
-        rep.violate(pre + 'reindex-not-fresh', 'reindex returned the object itself', case)
+        bc.violate(rep, pre + 'reindex-not-fresh', 'reindex returned the object itself', case)
     if type(r) is not type(obj):
-        rep.violate(pre + 'reindex-class', f'result class {type(r).__name__} != {type(obj).__name__}', case)
+        bc.violate(rep, pre + 'reindex-class', f'result class {type(r).__name__} != {type(obj).__name__}', case)
     rs = list(r.__dict__['span'])
     if len(rs) != len(list(new)) or not all(label_eq(a, b) for a, b in zip(rs, list(new))):
-        rep.violate(pre + 'reindex-span', f'result span {rs!r} is not the requested span {list(new)!r}', case)
+        bc.violate(rep, pre + 'reindex-span', f'result span {rs!r} is not the requested span {list(new)!r}', case)
     if list(r.__dict__['index']) != names:
-        rep.violate(pre + 'reindex-variable-order', f'variables {r.__dict__["index"]} != {names}', case)
+        bc.violate(rep, pre + 'reindex-variable-order', f'variables {r.__dict__["index"]} != {names}', case)
         return 'wrong'
     old_l, new_l = list(old), list(new)
     for nm in names:
         a0, a1 = obj.__dict__['_' + nm], r.__dict__['_' + nm]
         if a1.dtype != a0.dtype:
-            rep.violate(pre + 'reindex-dtype', f'{nm}: dtype {a1.dtype} != {a0.dtype}', case)
+            bc.violate(rep, pre + 'reindex-dtype', f'{nm}: dtype {a1.dtype} != {a0.dtype}', case)
             continue
         if a1.shape != (len(new_l),):
-            rep.violate(pre + 'reindex-length', f'{nm}: shape {a1.shape}, new span has {len(new_l)} periods', case)
+            bc.violate(rep, pre + 'reindex-length', f'{nm}: shape {a1.shape}, new span has {len(new_l)} periods', case)
             continue
         fill, judged = expected_fill(nm, a0.dtype, kw, case['is_model'])
         for i, lab in enumerate(new_l):
             occ = [k for k, x in enumerate(old_l) if label_eq(x, lab)]
             if occ:
                 if not any(same_value(a1[i], a0[k]) for k in occ):
-                    rep.violate(pre + 'reindex-overlap-value', f'{nm}[{lab!r}] = {a1[i]!r}, old value {a0[occ[0]]!r}', case)
+                    bc.violate(rep, pre + 'reindex-overlap-value', f'{nm}[{lab!r}] = {a1[i]!r}, old value {a0[occ[0]]!r}', case)
                     break
             elif judged and not same_value(a1[i], fill):
                 key = 'reindex-fill-value'
                 if pandas_mixin:
                     key = {'i': 'pandas-mixin-int-default', 'b': 'pandas-mixin-bool-default',
                            'U': 'pandas-mixin-str-default'}.get(a0.dtype.kind, 'pandas-mixin-fill-value')
-                rep.violate(key, f'{nm}[{lab!r}] (new period) = {a1[i]!r}, expected fill {fill!r}', case)
+                bc.violate(rep, key, f'{nm}[{lab!r}] (new period) = {a1[i]!r}, expected fill {fill!r}', case)
                 break
     # attributes, lag/lead settings, strict flag carry over
     s0, s1 = before, bc.snapshot(r)
     if s1['attributes'] != s0['attributes'] or s1['strict'] != s0['strict'] or s1['extra'] != s0['extra']:
         diff = [k for k in set(s0['extra']) | set(s1['extra']) if s0['extra'].get(k) != s1['extra'].get(k)]
-        rep.violate(pre + 'reindex-attributes', f'attributes differ: {diff} / list {s1["attributes"] != s0["attributes"]} / strict {s1["strict"]} vs {s0["strict"]}', case)
+        bc.violate(rep, pre + 'reindex-attributes', f'attributes differ: {diff} / list {s1["attributes"] != s0["attributes"]} / strict {s1["strict"]} vs {s0["strict"]}', case)
     # shares nothing
     m0, m1 = mutable_objects(obj), mutable_objects(r)
     shared = [m0[i][0] for i in m0 if i in m1]
     span_shared = [p for p in shared if p == "obj.__dict__['span']"]
     other_shared = [p for p in shared if p != "obj.__dict__['span']"]
     if other_shared:
-        rep.violate(pre + 'reindex-shares-object', f'result and original share {other_shared[:5]}', case)
+        bc.violate(rep, pre + 'reindex-shares-object', f'result and original share {other_shared[:5]}', case)
     if span_shared:
-        rep.violate('reindex-same-span-object-shared' if case.get('same_span_object') else pre + 'reindex-shares-object',
+        bc.violate(rep, 'reindex-same-span-object-shared' if case.get('same_span_object') else pre + 'reindex-shares-object',
                     'result.span is the original\'s mutable span object', case)
     arrs0 = [v[1] for v in m0.values() if isinstance(v[1], np.ndarray)]
     arrs1 = [v[1] for v in m1.values() if isinstance(v[1], np.ndarray)]
     for a in arrs1:
         for b in arrs0:
             if a is not b and a.size and b.size and np.shares_memory(a, b):
-                rep.violate(pre + 'reindex-shares-memory', 'an array of the result shares memory with the original', case)
+                bc.violate(rep, pre + 'reindex-shares-memory', 'an array of the result shares memory with the original', case)
     if case.get('probe'):
         # mutate the result, observe the original; then the other way round
         for nm in names:
@@ -433,7 +433,7 @@ def oracle(case, obj, before, old, new, outcome, rep, pandas_mixin=False):
         r.__dict__['index'].append('__probe__')
         r.__dict__['_attributes'].append('__probe__')
         if bc.snapshot(obj) != before:
-            rep.violate(pre + 'reindex-shares-object', 'mutating the result changed the original', case)
+            bc.violate(rep, pre + 'reindex-shares-object', 'mutating the result changed the original', case)
         after_r = bc.snapshot(r)
         for nm in names:
             a = obj.__dict__['_' + nm]
@@ -441,7 +441,7 @@ def oracle(case, obj, before, old, new, outcome, rep, pandas_mixin=False):
                 a[...] = a[::-1].copy() if a.dtype.kind == 'U' else (~a if a.dtype.kind == 'b' else a * 0 + 43)
         obj.__dict__['_attributes'].append('__probe2__')
         if bc.snapshot(r) != after_r:
-            rep.violate(pre + 'reindex-shares-object', 'mutating the original changed the result', case)
+            bc.violate(rep, pre + 'reindex-shares-object', 'mutating the original changed the result', case)
     return 'holds'
 
 
